@@ -25,6 +25,7 @@ static GLOBAL: alloctrack::Tracking = alloctrack::Tracking;
 pub mod c12b;
 pub mod c13;
 pub mod specbin;
+pub mod scalar;
 pub mod c03;
 pub mod c04;
 pub mod c05;
